@@ -7,8 +7,8 @@
    "Distance from the group" is formalised as the defect functional each predicate bounds:
      orth_defect R = ||R R' - I||_F  (+ the sign of det R),  unit_defect v = | ||v|| - 1 |,  ||v||,  skew_defect S = ||S + S'||_F.
    For each predicate three statements: completeness (exact members accepted), rejection band (defect >= 1e-6 -> false),
-   soundness (true -> defect < tol*eps [and det > 0]).  Where the faithful model violates the full statement the
-   full statement is kept in a comment and a _refuted / _partial pair is proved. *)
+   soundness (true -> defect < tol*eps [and det > 0]).  Since the fixes 8457767 (isR tests det R > 0) and f745aab (isunit is
+   isunitvec) every predicate satisfies the full-strength statements; the former _refuted / _partial pairs are gone. *)
 From Coq Require Import Reals ZArith Lra Lia Bool Psatz.
 From SM Require Import Base.Ops Base.Lin Base.RInst Base.RLin Model.C07_Pred.
 From SMgen Require Import Consts_C07.
@@ -53,10 +53,6 @@ Proof. intros H ->. apply Rltb_true. apply thr_pos, H. Qed.
 Lemma above_band k x : tol_ok k -> band <= x -> Rltb x (thr Rops k) = false.
 Proof. intros H Hx. apply Rltb_false. pose proof (thr_band k H). lra. Qed.
 
-Lemma det33_sq (A : M33 R) : det33 Rops (mmul33 Rops A (mtr33 A)) = det33 Rops A * det33 Rops A.
-Proof. lin_ring. Qed.
-Lemma det22_sq (A : M22 R) : det22 Rops (mmul22 Rops A (mtr22 A)) = det22 Rops A * det22 Rops A.
-Proof. lin_ring. Qed.
 Lemma orth_defect3_I : orth_defect3 Rops (I33 Rops) = 0 /\ forall R, mmul33 Rops R (mtr33 R) = I33 Rops -> orth_defect3 Rops R = 0.
 Proof.
   assert (H : fro33 Rops (msub33 Rops (I33 Rops) (I33 Rops)) = 0).
@@ -71,19 +67,20 @@ Proof.
 Qed.
 
 (* ================================================================ isR *)
-(* exact characterisation of what the code tests: orthogonality defect below tol*eps and det R <> 0
-   (det(R R') = det(R)^2 > 0 says nothing about the sign of det R) *)
+Lemma isR3_iff k (A : M33 R) : isR3 Rops k A = true <-> orth_defect3 Rops A < thr Rops k /\ 0 < det33 Rops A.
+Proof. unfold isR3. rewrite andb_true_iff, !ltb_R, !Rltb_true. change (zero Rops) with 0. tauto. Qed.
+Lemma isR2_iff k (A : M22 R) : isR2 Rops k A = true <-> orth_defect2 Rops A < thr Rops k /\ 0 < det22 Rops A.
+Proof. unfold isR2. rewrite andb_true_iff, !ltb_R, !Rltb_true. change (zero Rops) with 0. tauto. Qed.
+
+(* exact characterisation of what the code tests *)
 Theorem C07_isR_characterised : forall R : M33 R,
-  isR3 Rops (isR_tol Rops) R = true <-> orth_defect3 Rops R < thr Rops (isR_tol Rops) /\ det33 Rops R <> 0.
-Proof.
-  intros R. unfold isR3. rewrite andb_true_iff, !ltb_R, !Rltb_true, det33_sq. change (zero Rops) with 0.
-  split; intros [H1 H2]; split; auto; nra.
-Qed.
+  isR3 Rops (isR_tol Rops) R = true <-> orth_defect3 Rops R < thr Rops (isR_tol Rops) /\ 0 < det33 Rops R.
+Proof. intros R. apply isR3_iff. Qed.
 Print Assumptions C07_isR_characterised.
 
 Theorem C07_isR_complete : forall R : M33 R, SO3 R -> isR3 Rops (isR_tol Rops) R = true.
 Proof.
-  intros R H. apply C07_isR_characterised. apply SO3_matrix in H. destruct H as [H D]. split.
+  intros R H. apply isR3_iff. apply SO3_matrix in H. destruct H as [H D]. split.
   - rewrite (proj2 orth_defect3_I R H). apply thr_pos, isR_tol_ok.
   - rewrite D. lra.
 Qed.
@@ -93,8 +90,7 @@ Proof. split. apply SO3_rotx; lra. lin_simpl. intros H. injection H; intros; lra
 
 Theorem C07_isR2_complete : forall R : M22 R, SO2 R -> isR2 Rops (isR_tol Rops) R = true.
 Proof.
-  intros R H. apply SO2_matrix in H. destruct H as [H D]. unfold isR2.
-  rewrite andb_true_iff, !ltb_R, !Rltb_true, det22_sq, D, (orth_defect2_I R H). change (zero Rops) with 0.
+  intros R H. apply SO2_matrix in H. destruct H as [H D]. apply isR2_iff. rewrite D, (orth_defect2_I R H).
   split; [apply thr_pos, isR_tol_ok | lra].
 Qed.
 Print Assumptions C07_isR2_complete.
@@ -113,74 +109,64 @@ Theorem C07_isR2_band : forall R : M22 R, band <= orth_defect2 Rops R -> isR2 Ro
 Proof. intros R H. unfold isR2. rewrite ltb_R, (above_band _ _ isR_tol_ok H). reflexivity. Qed.
 Print Assumptions C07_isR2_band.
 
-(* FULL soundness statement (false of the code):
-     forall R, isR3 R = true -> orth_defect3 R < tol*eps /\ 0 < det R
-   and FULL rejection statement of the property ("reflections included"):
-     forall R, det R <= 0 -> isR3 R = false.
-   Both are refuted by diag(1,1,-1); in fact EVERY improper orthogonal matrix is accepted. *)
+(* FULL soundness and FULL rejection ("reflections included"); both were refuted by diag(1,1,-1) before fix 8457767 *)
 Definition refl3 : M33 R := ((1,0,0),(0,1,0),(0,0,-1)).
 Definition refl2 : M22 R := ((1,0),(0,-1)).
-Theorem C07_isR_accepts_every_reflection : forall R : M33 R,
-  mmul33 Rops R (mtr33 R) = I33 Rops -> det33 Rops R = -1 -> isR3 Rops (isR_tol Rops) R = true.
+Theorem C07_isR_sound : forall R : M33 R, isR3 Rops (isR_tol Rops) R = true ->
+  orth_defect3 Rops R < thr Rops (isR_tol Rops) /\ orth_defect3 Rops R < band /\ 0 < det33 Rops R.
 Proof.
-  intros R H D. apply C07_isR_characterised. rewrite (proj2 orth_defect3_I R H), D. split; [apply thr_pos, isR_tol_ok | lra].
+  intros R H. apply isR3_iff in H. destruct H as [H1 H2]. pose proof (thr_band _ isR_tol_ok). repeat split; auto; lra.
 Qed.
-Print Assumptions C07_isR_accepts_every_reflection.
+Print Assumptions C07_isR_sound.
+Theorem C07_isR2_sound : forall R : M22 R, isR2 Rops (isR_tol Rops) R = true -> orth_defect2 Rops R < band /\ 0 < det22 Rops R.
+Proof.
+  intros R H. apply isR2_iff in H. destruct H as [H1 H2]. pose proof (thr_band _ isR_tol_ok). split; [lra | exact H2].
+Qed.
+Print Assumptions C07_isR2_sound.
+Theorem C07_isR_rejects_reflections : forall R : M33 R, det33 Rops R <= 0 -> isR3 Rops (isR_tol Rops) R = false.
+Proof.
+  intros R D. destruct (isR3 Rops (isR_tol Rops) R) eqn:E; [|reflexivity]. apply isR3_iff in E. lra.
+Qed.
+Print Assumptions C07_isR_rejects_reflections.
+Theorem C07_isR2_rejects_reflections : forall R : M22 R, det22 Rops R <= 0 -> isR2 Rops (isR_tol Rops) R = false.
+Proof.
+  intros R D. destruct (isR2 Rops (isR_tol Rops) R) eqn:E; [|reflexivity]. apply isR2_iff in E. lra.
+Qed.
+Print Assumptions C07_isR2_rejects_reflections.
 Example C07_reflection_nonvacuous : mmul33 Rops refl3 (mtr33 refl3) = I33 Rops /\ det33 Rops refl3 = -1.
 Proof. unfold refl3. split; lin_simpl; [tuple_eq ltac:(ring) | ring]. Qed.
-Theorem C07_isR_sound_refuted : exists R : M33 R, isR3 Rops (isR_tol Rops) R = true /\ ~ (0 < det33 Rops R).
-Proof.
-  exists refl3. destruct C07_reflection_nonvacuous as [H D]. split.
-  - apply C07_isR_accepts_every_reflection; assumption.
-  - rewrite D. lra.
-Qed.
-Print Assumptions C07_isR_sound_refuted.
-Theorem C07_isR_rejects_reflections_refuted : exists R : M33 R, det33 Rops R <= 0 /\ isR3 Rops (isR_tol Rops) R = true.
-Proof.
-  exists refl3. destruct C07_reflection_nonvacuous as [H D]. split; [rewrite D; lra | apply C07_isR_accepts_every_reflection; assumption].
-Qed.
-Print Assumptions C07_isR_rejects_reflections_refuted.
-Theorem C07_isR_sound_partial : forall R : M33 R,
-  isR3 Rops (isR_tol Rops) R = true -> orth_defect3 Rops R < thr Rops (isR_tol Rops) /\ orth_defect3 Rops R < band /\ det33 Rops R <> 0.
-Proof.
-  intros R H. apply C07_isR_characterised in H. destruct H as [H1 H2]. pose proof (thr_band _ isR_tol_ok). repeat split; auto; lra.
-Qed.
-Print Assumptions C07_isR_sound_partial.
-Theorem C07_isR2_accepts_every_reflection : forall R : M22 R,
-  mmul22 Rops R (mtr22 R) = I22 Rops -> det22 Rops R = -1 -> isR2 Rops (isR_tol Rops) R = true.
-Proof.
-  intros R H D. unfold isR2. rewrite andb_true_iff, !ltb_R, !Rltb_true, det22_sq, D, (orth_defect2_I R H). change (zero Rops) with 0.
-  split; [apply thr_pos, isR_tol_ok | lra].
-Qed.
-Print Assumptions C07_isR2_accepts_every_reflection.
 Example C07_reflection2_nonvacuous : mmul22 Rops refl2 (mtr22 refl2) = I22 Rops /\ det22 Rops refl2 = -1.
 Proof. unfold refl2. split; lin_simpl; [tuple_eq ltac:(ring) | ring]. Qed.
-Theorem C07_isR2_sound_partial : forall R : M22 R,
-  isR2 Rops (isR_tol Rops) R = true -> orth_defect2 Rops R < band /\ det22 Rops R <> 0.
+(* the witness of the former refutation is now rejected although it is exactly orthogonal *)
+Example C07_isR_rejects_diag_1_1_m1 : isR3 Rops (isR_tol Rops) refl3 = false /\ orth_defect3 Rops refl3 = 0.
 Proof.
-  intros R H. unfold isR2 in H. rewrite andb_true_iff, !ltb_R, !Rltb_true, det22_sq in H. change (zero Rops) with 0 in H.
-  destruct H as [H1 H2]. pose proof (thr_band _ isR_tol_ok). split; [lra | nra].
+  destruct C07_reflection_nonvacuous as [H D]. split.
+  - apply C07_isR_rejects_reflections. rewrite D. lra.
+  - apply (proj2 orth_defect3_I _ H).
 Qed.
-Print Assumptions C07_isR2_sound_partial.
 
 (* ================================================================ isrot / ishom / isrot2 / ishom2, check on *)
 Theorem C07_isrot_complete : forall R : M33 R, SO3 R -> isrot Rops true (isrot_tol Rops) R = true.
 Proof.
   intros R H. unfold isrot. cbn [negb orb]. apply SO3_matrix in H. destruct H as [H D].
-  unfold isR3. rewrite andb_true_iff, !ltb_R, !Rltb_true, det33_sq, D, (proj2 orth_defect3_I R H). change (zero Rops) with 0.
-  split; [apply thr_pos, isrot_tol_ok | lra].
+  apply isR3_iff. rewrite D, (proj2 orth_defect3_I R H). split; [apply thr_pos, isrot_tol_ok | lra].
 Qed.
 Print Assumptions C07_isrot_complete.
 Theorem C07_isrot_band : forall R : M33 R, band <= orth_defect3 Rops R -> isrot Rops true (isrot_tol Rops) R = false.
 Proof. intros R H. unfold isrot, isR3. cbn [negb orb]. rewrite ltb_R, (above_band _ _ isrot_tol_ok H). reflexivity. Qed.
 Print Assumptions C07_isrot_band.
+Theorem C07_isrot_sound : forall R : M33 R, isrot Rops true (isrot_tol Rops) R = true -> orth_defect3 Rops R < band /\ 0 < det33 Rops R.
+Proof.
+  intros R H. unfold isrot in H. cbn [negb orb] in H. apply isR3_iff in H. destruct H as [H1 H2].
+  pose proof (thr_band _ isrot_tol_ok). split; [lra | exact H2].
+Qed.
+Print Assumptions C07_isrot_sound.
 
 Theorem C07_ishom_complete : forall A : M44 R, SE3 A -> ishom Rops true (ishom_tol Rops) A = true.
 Proof.
   intros A [H L]. unfold ishom. cbn [negb orb]. apply SO3_matrix in H. destruct H as [H D].
-  unfold isR3. rewrite L. rewrite !andb_true_iff, !ltb_R, !Rltb_true, det33_sq, D, (proj2 orth_defect3_I _ H). change (zero Rops) with 0.
-  repeat split; [apply thr_pos, ishom_tol_ok | lra | ].
-  apply row_eq4_refl.
+  rewrite L, row_eq4_refl, andb_true_r. apply isR3_iff. rewrite D, (proj2 orth_defect3_I _ H).
+  split; [apply thr_pos, ishom_tol_ok | lra].
 Qed.
 Print Assumptions C07_ishom_complete.
 Example C07_ishom_complete_nonvacuous : SE3 (rt2tr3 Rops (rotx_cs Rops (3/5) (4/5)) (1,2,3)).
@@ -201,27 +187,19 @@ Proof.
   intros A H. destruct (ishom Rops true (ishom_tol Rops) A) eqn:E; [|reflexivity]. apply C07_ishom_lastrow in E. contradiction.
 Qed.
 Print Assumptions C07_ishom_badrow_rejected.
-(* FULL: ishom A = true -> SE3-defect small /\ 0 < det (rotation block).  Refuted by diag(1,1,-1,1). *)
-Theorem C07_ishom_sound_refuted : exists A : M44 R, ishom Rops true (ishom_tol Rops) A = true /\ ~ (0 < det33 Rops (t2r3 A)).
-Proof.
-  exists (rt2tr3 Rops refl3 (0,0,0)). split.
-  - unfold ishom. cbn [negb orb]. replace (t2r3 (rt2tr3 Rops refl3 (0,0,0))) with refl3 by (unfold refl3; lin_simpl; reflexivity).
-    destruct C07_reflection_nonvacuous as [H D].
-    unfold isR3. rewrite !andb_true_iff, !ltb_R, !Rltb_true, det33_sq, D, (proj2 orth_defect3_I _ H). change (zero Rops) with 0.
-    repeat split; [apply thr_pos, ishom_tol_ok | lra | ].
-    apply row_eq4_refl.
-  - replace (t2r3 (rt2tr3 Rops refl3 (0,0,0))) with refl3 by (unfold refl3; lin_simpl; reflexivity).
-    rewrite (proj2 C07_reflection_nonvacuous). lra.
-Qed.
-Print Assumptions C07_ishom_sound_refuted.
-Theorem C07_ishom_sound_partial : forall A : M44 R, ishom Rops true (ishom_tol Rops) A = true ->
-  orth_defect3 Rops (t2r3 A) < band /\ det33 Rops (t2r3 A) <> 0 /\ lastrow4 A = (0,0,0,1).
+(* FULL soundness (refuted by diag(1,1,-1,1) before fix 8457767) *)
+Theorem C07_ishom_sound : forall A : M44 R, ishom Rops true (ishom_tol Rops) A = true ->
+  orth_defect3 Rops (t2r3 A) < band /\ 0 < det33 Rops (t2r3 A) /\ lastrow4 A = (0,0,0,1).
 Proof.
   intros A H. pose proof (C07_ishom_lastrow A H) as L. unfold ishom in H. cbn [negb orb] in H. apply andb_true_iff in H. destruct H as [H _].
-  unfold isR3 in H. rewrite andb_true_iff, !ltb_R, !Rltb_true, det33_sq in H. change (zero Rops) with 0 in H. destruct H as [H1 H2].
-  pose proof (thr_band _ ishom_tol_ok). repeat split; auto; [lra | nra].
+  apply isR3_iff in H. destruct H as [H1 H2]. pose proof (thr_band _ ishom_tol_ok). repeat split; auto; lra.
 Qed.
-Print Assumptions C07_ishom_sound_partial.
+Print Assumptions C07_ishom_sound.
+Theorem C07_ishom_rejects_reflections : forall A : M44 R, det33 Rops (t2r3 A) <= 0 -> ishom Rops true (ishom_tol Rops) A = false.
+Proof.
+  intros A D. destruct (ishom Rops true (ishom_tol Rops) A) eqn:E; [|reflexivity]. apply C07_ishom_sound in E. lra.
+Qed.
+Print Assumptions C07_ishom_rejects_reflections.
 
 (* 2-D: isrot2 / ishom2 call isR with ITS default tolerance *)
 Theorem C07_isrot2_complete : forall R : M22 R, SO2 R -> isrot2 Rops true (isR_tol Rops) R = true.
@@ -396,36 +374,30 @@ Proof.
 Qed.
 Print Assumptions C07_iszero_spec.
 
-(* ================================================================ quaternions.isunit  (body: iszerovec(q, tol)) *)
-(* FULL completeness:  qnormsq q = 1 -> isunit_q q = true.   FULL soundness:  isunit_q q = true -> unit_defect4 q < band.
-   Both false: the function accepts exactly the (near-)zero quaternions and rejects EVERY unit quaternion. *)
-Theorem C07_isunit_is_iszerovec : forall k (q : V4 R), isunit_q Rops k q = iszerovec4 Rops k q.
+(* ================================================================ quaternions.isunit  (body: isunitvec(q, tol), fix f745aab) *)
+Theorem C07_isunit_is_isunitvec : forall k (q : V4 R), isunit_q Rops k q = isunitvec4 Rops k q.
 Proof. reflexivity. Qed.
-Print Assumptions C07_isunit_is_iszerovec.
-Theorem C07_isunit_rejects_every_unit : forall q : V4 R, qnormsq Rops q = 1 -> isunit_q Rops (isunit_tol Rops) q = false.
+Print Assumptions C07_isunit_is_isunitvec.
+Theorem C07_isunit_complete : forall q : V4 R, qnormsq Rops q = 1 -> isunit_q Rops (isunit_tol Rops) q = true.
 Proof.
-  intros q H. unfold isunit_q, iszerovec4, norm4. unfold qnormsq in H. rewrite H, ltb_R. sm_simpl. rewrite sqrt_1.
-  apply above_band; [apply isunit_tol_ok | unfold band; lra].
+  intros q H. unfold isunit_q, isunitvec4, unit_defect4, norm4. unfold qnormsq in H. rewrite H, ltb_R. apply below_thr; [apply isunit_tol_ok|].
+  sm_simpl. rewrite sqrt_1. replace (1 - 1) with 0 by ring. apply Rabs_R0.
 Qed.
-Print Assumptions C07_isunit_rejects_every_unit.
-Theorem C07_isunit_complete_refuted : exists q : V4 R, qnormsq Rops q = 1 /\ isunit_q Rops (isunit_tol Rops) q = false.
+Print Assumptions C07_isunit_complete.
+Example C07_isunit_complete_nonvacuous : qnormsq Rops (1,0,0,0) = 1 /\ qnormsq Rops (1/2,1/2,1/2,1/2) = 1.
+Proof. split; lin_simpl; lra. Qed.
+Theorem C07_isunit_band : forall q : V4 R, band <= unit_defect4 Rops q -> isunit_q Rops (isunit_tol Rops) q = false.
+Proof. intros q H. unfold isunit_q, isunitvec4. rewrite ltb_R. apply above_band; [apply isunit_tol_ok | exact H]. Qed.
+Print Assumptions C07_isunit_band.
+Theorem C07_isunit_sound : forall q : V4 R, isunit_q Rops (isunit_tol Rops) q = true -> unit_defect4 Rops q < band.
+Proof. intros q H. unfold isunit_q, isunitvec4 in H. rewrite ltb_R, Rltb_true in H. pose proof (thr_band _ isunit_tol_ok). lra. Qed.
+Print Assumptions C07_isunit_sound.
+(* the witnesses of the former refutations: the zero quaternion is rejected *)
+Example C07_isunit_rejects_zero : isunit_q Rops (isunit_tol Rops) (0,0,0,0) = false.
 Proof.
-  assert (H : qnormsq Rops (1,0,0,0) = 1) by (lin_simpl; ring).
-  exists (1,0,0,0). split; [exact H | apply C07_isunit_rejects_every_unit, H].
+  apply C07_isunit_band. c07_simpl. replace (_ + _ + _ + _) with 0 by ring. rewrite sqrt_0.
+  rewrite <- Rabs_Ropp. replace (- (0 - 1)) with 1 by ring. rewrite Rabs_R1. unfold band. lra.
 Qed.
-Print Assumptions C07_isunit_complete_refuted.
-Theorem C07_isunit_sound_refuted : exists q : V4 R, isunit_q Rops (isunit_tol Rops) q = true /\ ~ unit_defect4 Rops q < band.
-Proof.
-  exists (0,0,0,0). split.
-  - unfold isunit_q, iszerovec4. rewrite ltb_R. apply below_thr; [apply isunit_tol_ok|]. c07_simpl. apply sqrt_sumsq_zero. ring.
-  - c07_simpl. replace (_ + _ + _ + _) with 0 by ring. rewrite sqrt_0. rewrite <- Rabs_Ropp. replace (- (0 - 1)) with 1 by ring.
-    rewrite Rabs_R1. unfold band. lra.
-Qed.
-Print Assumptions C07_isunit_sound_refuted.
-(* what does hold: quaternions that are not tiny are rejected (so non-unit ones of norm >= 1e-6 are rejected, for the wrong reason) *)
-Theorem C07_isunit_band_partial : forall q : V4 R, band <= norm4 Rops q -> isunit_q Rops (isunit_tol Rops) q = false.
-Proof. intros q H. unfold isunit_q, iszerovec4. rewrite ltb_R. apply above_band; [apply isunit_tol_ok | exact H]. Qed.
-Print Assumptions C07_isunit_band_partial.
 
 (* ================================================================ isunittwist / isunittwist2 *)
 Theorem C07_isunittwist_complete : forall v w : V3 R,
@@ -492,16 +464,14 @@ Print Assumptions C07_isunittwist2_band.
    corruption of the last row.  (Arrays with a defect inside the band carry no tag: the property leaves them open.) *)
 From SM Require Import Model.C07_Ctor.
 
-Lemma isR3_orth k (R : M33 R) : tol_ok k -> mmul33 Rops R (mtr33 R) = I33 Rops -> det33 Rops R <> 0 -> isR3 Rops k R = true.
-Proof.
-  intros Hk H D. unfold isR3. rewrite andb_true_iff, !ltb_R, !Rltb_true, det33_sq, (proj2 orth_defect3_I R H). change (zero Rops) with 0.
-  split; [apply thr_pos, Hk | nra].
-Qed.
-Lemma isR2_orth k (R : M22 R) : tol_ok k -> mmul22 Rops R (mtr22 R) = I22 Rops -> det22 Rops R <> 0 -> isR2 Rops k R = true.
-Proof.
-  intros Hk H D. unfold isR2. rewrite andb_true_iff, !ltb_R, !Rltb_true, det22_sq, (orth_defect2_I R H). change (zero Rops) with 0.
-  split; [apply thr_pos, Hk | nra].
-Qed.
+Lemma isR3_orth k (R : M33 R) : tol_ok k -> mmul33 Rops R (mtr33 R) = I33 Rops -> 0 < det33 Rops R -> isR3 Rops k R = true.
+Proof. intros Hk H D. apply isR3_iff. rewrite (proj2 orth_defect3_I R H). split; [apply thr_pos, Hk | exact D]. Qed.
+Lemma isR2_orth k (R : M22 R) : tol_ok k -> mmul22 Rops R (mtr22 R) = I22 Rops -> 0 < det22 Rops R -> isR2 Rops k R = true.
+Proof. intros Hk H D. apply isR2_iff. rewrite (orth_defect2_I R H). split; [apply thr_pos, Hk | exact D]. Qed.
+Lemma isR3_neg k (R : M33 R) : det33 Rops R <= 0 -> isR3 Rops k R = false.
+Proof. intros D. destruct (isR3 Rops k R) eqn:E; [|reflexivity]. apply isR3_iff in E. lra. Qed.
+Lemma isR2_neg k (R : M22 R) : det22 Rops R <= 0 -> isR2 Rops k R = false.
+Proof. intros D. destruct (isR2 Rops k R) eqn:E; [|reflexivity]. apply isR2_iff in E. lra. Qed.
 Lemma isR3_far k (R : M33 R) : tol_ok k -> band <= orth_defect3 Rops R -> isR3 Rops k R = false.
 Proof. intros Hk H. unfold isR3. rewrite ltb_R, (above_band _ _ Hk H). reflexivity. Qed.
 Lemma isR2_far k (R : M22 R) : tol_ok k -> band <= orth_defect2 Rops R -> isR2 Rops k R = false.
@@ -559,7 +529,7 @@ Proof.
   intros t A H. unfold isrot. cbn [negb orb]. destruct t; cbn [tagged_rot3 tagged_rot2 tagged_hom4 tagged_hom3 tagged_unit4 tagged_alg4 rot_ok hom_ok unit_ok alg_ok] in H |- *; try contradiction.
   - apply SO3_matrix in H. destruct H as [H D]. apply isR3_orth; [apply isrot_tol_ok | exact H | rewrite D; lra].
   - apply isR3_far; [apply isrot_tol_ok | exact H].
-  - destruct H as [H D]. apply isR3_orth; [apply isrot_tol_ok | exact H | rewrite D; lra].
+  - destruct H as [H D]. apply isR3_neg. rewrite D. lra.
 Qed.
 Print Assumptions C07_bridge_SO3.
 Theorem C07_bridge_SO2 : forall t A, tagged_rot2 t A -> isrot2 Rops true (isR_tol Rops) A = rot_ok t.
@@ -567,7 +537,7 @@ Proof.
   intros t A H. unfold isrot2. cbn [negb orb]. destruct t; cbn [tagged_rot3 tagged_rot2 tagged_hom4 tagged_hom3 tagged_unit4 tagged_alg4 rot_ok hom_ok unit_ok alg_ok] in H |- *; try contradiction.
   - apply SO2_matrix in H. destruct H as [H D]. apply isR2_orth; [apply isR_tol_ok | exact H | rewrite D; lra].
   - apply isR2_far; [apply isR_tol_ok | exact H].
-  - destruct H as [H D]. apply isR2_orth; [apply isR_tol_ok | exact H | rewrite D; lra].
+  - destruct H as [H D]. apply isR2_neg. rewrite D. lra.
 Qed.
 Print Assumptions C07_bridge_SO2.
 Theorem C07_bridge_SE3 : forall t A, tagged_hom4 t A -> ishom Rops true (ishom_tol Rops) A = hom_ok t.
@@ -576,7 +546,7 @@ Proof.
   - destruct H as [H L]. apply SO3_matrix in H. destruct H as [H D]. rewrite L, row_eq4_refl, andb_true_r.
     apply isR3_orth; [apply ishom_tol_ok | exact H | rewrite D; lra].
   - rewrite (isR3_far _ _ ishom_tol_ok H). reflexivity.
-  - destruct H as [[H D] L]. rewrite L, row_eq4_refl, andb_true_r. apply isR3_orth; [apply ishom_tol_ok | exact H | rewrite D; lra].
+  - destruct H as [[H D] L]. rewrite (isR3_neg (ishom_tol Rops) (t2r3 A)); [reflexivity | rewrite D; lra].
   - change (zero Rops) with 0. change (one Rops) with 1. rewrite (row_eq4_neq _ _ _ _ _ H). apply andb_false_r.
 Qed.
 Print Assumptions C07_bridge_SE3.
@@ -586,7 +556,7 @@ Proof.
   - destruct H as [H L]. apply SO2_matrix in H. destruct H as [H D]. rewrite L, row_eq3_refl, andb_true_r.
     apply isR2_orth; [apply isR_tol_ok | exact H | rewrite D; lra].
   - rewrite (isR2_far _ _ isR_tol_ok H). reflexivity.
-  - destruct H as [[H D] L]. rewrite L, row_eq3_refl, andb_true_r. apply isR2_orth; [apply isR_tol_ok | exact H | rewrite D; lra].
+  - destruct H as [[H D] L]. rewrite (isR2_neg (isR_tol Rops) (t2r2 A)); [reflexivity | rewrite D; lra].
   - change (zero Rops) with 0. change (one Rops) with 1. rewrite (row_eq3_neq _ _ _ _ H). apply andb_false_r.
 Qed.
 Print Assumptions C07_bridge_SE2.
